@@ -184,6 +184,45 @@ pub struct Evaluation {
     pub iterations: u64,
 }
 
+/// the ways an application gets from (token, authorizer contents) to an authorizer it evaluates;
+/// every one of them must give the same answers
+#[derive(Clone, Copy, Debug, PartialEq, Eq)]
+pub enum Route {
+    /// AuthorizerBuilder::build(token)
+    Direct,
+    /// built, saved before any evaluation, restored (another process takes over)
+    SnapshotFresh,
+    /// built, evaluated with run(), saved, restored
+    SnapshotEvaluated,
+    /// the builder itself saved and restored before build(token)
+    BuilderSnapshot,
+}
+
+pub const ROUTES: [Route; 4] = [Route::Direct, Route::SnapshotFresh, Route::SnapshotEvaluated, Route::BuilderSnapshot];
+
+pub fn build_via(route: Route, token: Option<&Biscuit>, auth: &crate::ast::Authorizer, limits: Limits) -> Result<Authorizer, String> {
+    match route {
+        Route::Direct => build_authorizer(token, auth, limits),
+        Route::SnapshotFresh | Route::SnapshotEvaluated => {
+            let mut a = build_authorizer(token, auth, limits)?;
+            if route == Route::SnapshotEvaluated {
+                let _ = a.run();
+            }
+            let bytes = a.to_raw_snapshot().map_err(|e| format!("snapshot: {e:?}"))?;
+            Authorizer::from_raw_snapshot(&bytes).map_err(|e| format!("restore: {e:?}"))
+        }
+        Route::BuilderSnapshot => {
+            let ab = auth.to_builder().map_err(|e| format!("authorizer builder: {e:?}"))?.limits(limits.to_lib());
+            let bytes = ab.to_raw_snapshot().map_err(|e| format!("builder snapshot: {e:?}"))?;
+            let ab = biscuit_auth::builder::AuthorizerBuilder::from_raw_snapshot(&bytes).map_err(|e| format!("builder restore: {e:?}"))?;
+            match token {
+                Some(t) => ab.build(t).map_err(|e| format!("{e:?}")),
+                None => ab.build_unauthenticated().map_err(|e| format!("{e:?}")),
+            }
+        }
+    }
+}
+
 /// build + authorize + queries + facts, under `hash_key`
 pub fn evaluate(
     token: Option<&Biscuit>,
@@ -193,8 +232,20 @@ pub fn evaluate(
     limits: Limits,
     want_facts: bool,
 ) -> Evaluation {
+    evaluate_via(Route::Direct, token, auth, queries, hash_key, limits, want_facts)
+}
+
+pub fn evaluate_via(
+    route: Route,
+    token: Option<&Biscuit>,
+    auth: &crate::ast::Authorizer,
+    queries: &[Rule],
+    hash_key: u64,
+    limits: Limits,
+    want_facts: bool,
+) -> Evaluation {
     install(hash_key);
-    let mut a = match build_authorizer(token, auth, limits) {
+    let mut a = match build_via(route, token, auth, limits) {
         Ok(a) => a,
         Err(e) => {
             return Evaluation {
